@@ -56,6 +56,17 @@ Theorem accumulated_stats_are_good_z :
 Proof. exact accumulate_good_z. Qed.
 Print Assumptions accumulated_stats_are_good_z.
 
+(* ... and stay good when more data is accumulated into them (e.g. after a reload) *)
+Theorem accumulate_more_keeps_good_z :
+  forall (xs : list (list Z)) (a : arr Z) nv F,
+    good_stats ZC a ->
+    (exists r0 r1, a = Arr2 DF64 r0 r1 /\ List.length r0 = S F) ->
+    (1 <= F)%nat -> xs <> [] -> (forall x, In x xs -> List.length x = F) ->
+    exists a', accumulate 0%Z 1%Z Z.add Z.mul (Obj (Some a) nv) xs = Ok (Obj (Some a') nv) /\
+               good_stats ZC a'.
+Proof. exact accumulate_more_good_z. Qed.
+Print Assumptions accumulate_more_keeps_good_z.
+
 (* ---- save then reload gives the same statistics, per target ---- *)
 Theorem reload_npy :
   forall V (C : VClass V) reinterp cast is_table sf_ext,
@@ -209,26 +220,49 @@ Theorem save_sequence_succeeds :
 Proof. exact (@save_sequence_ok). Qed.
 Print Assumptions save_sequence_succeeds.
 
+Theorem save_twice_same_files :
+  forall V (C : VClass V) (fs : fsys V) o a p key c,
+    saveable C o a -> key_ok key ->
+    forall fs', save C fs o p key c true = Ok fs' ->
+    exists fs'', save C fs' o p key c true = Ok fs'' /\ forall q, fs'' q = fs' q.
+Proof. exact (@save_twice_same). Qed.
+Print Assumptions save_twice_same_files.
+
 (* ---- the loader's sanity check on any 1-D array ---- *)
 Theorem loader_output_passes_check :
   forall V (C : VClass V) reinterp cast (a a' : arr V),
     sanitize C reinterp cast a = Ok a' ->
     passes C a' /\
     ((a_dt a' = a_dt a /\ a_flat a' = a_flat a) \/
-     (a_dt a = DF64 /\ a_dt a' = DF64 /\
-      a_flat a' = map (cast DF32 DF64) (reinterp DF64 DF32 (a_flat a))) \/
-     (a_dt a = DF32 /\ a_dt a' = DF64 /\
-      a_flat a' = map (cast DF64 DF64) (reinterp DF32 DF64 (a_flat a)))).
+     exists view castto,
+       sanitize_reinterpret (a_dt a) = Ok (view, castto) /\
+       a_dt a' = castto /\ a_flat a' = a_flat (second_view reinterp cast a view castto)).
 Proof. exact (@sanitize_ok). Qed.
 Print Assumptions loader_output_passes_check.
 
 Theorem loader_rejects_when_both_views_invalid :
-  forall V (C : VClass V) reinterp cast (l : list V),
-    (forall a', sanitize_try C (Arr1 DF64 l) <> Ok (a', true)) ->
-    (forall a', sanitize_try C (Arr1 DF64 (map (cast DF32 DF64) (reinterp DF64 DF32 l))) <> Ok (a', true)) ->
-    exists e, sanitize C reinterp cast (Arr1 DF64 l) = Raise e.
+  forall V (C : VClass V) reinterp cast (a : arr V),
+    (forall a', sanitize_try C a <> Ok (a', true)) ->
+    (forall view castto a', sanitize_reinterpret (a_dt a) = Ok (view, castto) ->
+                            sanitize_try C (second_view reinterp cast a view castto) <> Ok (a', true)) ->
+    exists e, sanitize C reinterp cast a = Raise e.
 Proof. exact (@sanitize_both_invalid). Qed.
 Print Assumptions loader_rejects_when_both_views_invalid.
+
+(* the float32 / float64 re-interpretation heuristic does what it is for *)
+Theorem raw_float32_statistics_load :
+  forall V (C : VClass V) reinterp cast is_table sf_ext (fs : fsys V) p r0 r1 c kw nv,
+    fs p = Some (FRaw DF32 (r0 ++ r1)) ->
+    kw_force_as kw = Some FaFile -> kw_dtype kw = None ->
+    (exists a1, sanitize_try C (Arr1 DF64 (reinterp DF32 DF64 (r0 ++ r1))) = Ok (a1, false)) ->
+    reinterp DF64 DF32 (reinterp DF32 DF64 (r0 ++ r1)) = r0 ++ r1 ->
+    List.length r0 = List.length r1 -> last_opt r0 = Some c ->
+    v_intlike C (cast DF32 DF64 c) = true -> v_nonneg C (cast DF32 DF64 c) = true ->
+    forallb (v_nonneg C) (map (cast DF32 DF64) r1) = true ->
+    init C reinterp cast is_table sf_ext fs (Some p) nv kw =
+    Ok (Obj (Some (Arr2 DF64 (map (cast DF32 DF64) r0) (map (cast DF32 DF64) r1))) nv).
+Proof. exact (@load_raw_float32). Qed.
+Print Assumptions raw_float32_statistics_load.
 
 (* ---- regression of the fixed finding: the validity test as it was before
         commit ff42a61 rejects good statistics with a negative sum ---- *)
